@@ -242,8 +242,11 @@ def surplus_cases(ctx, res, pending):
                         fail = None
                         if strict and r["outcome"] == "ok":
                             fail = "strict mode accepted a reply with an occurrence of a declared element beyond what the schema allows"
-                        elif not strict and r["outcome"] == "ok" and not has_raw(r["value"]):
-                            fail = "non-strict mode dropped a surplus occurrence of a declared element without trace"
+                        elif not strict and kind == "all" and r["outcome"] == "ok" and not has_raw(r["value"]):
+                            # (under a sequence / choice non-strict decoding may absorb the surplus element into the value, recording
+                            # the sibling it expected instead as None: nothing vanishes, so only xsd:all is judged directly here;
+                            # the other kinds are judged through the model, whose non-strict semantics C07's theorems cover)
+                            fail = "non-strict mode dropped a surplus occurrence of an xsd:all member without trace"
                         elif not strict and r["outcome"] not in ("ok", "XMLParseError", "TypeError"):
                             fail = "non-strict decoding raised %s %s" % (r["outcome"], r.get("msg", ""))
                         if fail:
@@ -379,7 +382,7 @@ def replay(ctx, payload):
     d = etree.fromstring(c["document"].encode())
     r = enginea.impl_parse(case, d, c["strict"])
     if c.get("kind") == "surplus":
-        ok = r["outcome"] != "ok" if c["strict"] else (r["outcome"] != "ok" or has_raw(r["value"]))
+        ok = r["outcome"] != "ok" if c["strict"] else (r["outcome"] != "ok" or c.get("parent_content") != "all" or has_raw(r["value"]))
         return ok, "surplus occurrence, %s outcome %s" % ("strict" if c["strict"] else "lax", r["outcome"])
     if c["strict"]:
         return r["outcome"] != "ok", "strict outcome " + r["outcome"]
